@@ -83,10 +83,10 @@ Proof.
   - vm_compute. reflexivity.
   - reflexivity.
   - cbn [d_objs ex_doc l_objs ex_layout combine]. repeat apply Forall_cons; [| |apply Forall_nil].
-    + unfold wf_obj. cbn [fst snd lo_nw lo_gw lo_w1 lo_w2 lo_w3 lo_w4 lo_sp].
+    + unfold wf_obj, wf_obj_k. cbn [fst snd lo_nw lo_gw lo_w1 lo_w2 lo_w3 lo_w4 lo_sp].
       repeat split; try exact ex_sp_catalog; try lia; try (vm_compute; reflexivity); try discriminate; try ex_ws.
       left. discriminate.
-    + unfold wf_obj. cbn [fst snd lo_nw lo_gw lo_w1 lo_w2 lo_w3 lo_w4 lo_w5 lo_sp lo_eol1 lo_eol2].
+    + unfold wf_obj, wf_obj_k. cbn [fst snd lo_nw lo_gw lo_w1 lo_w2 lo_w3 lo_w4 lo_w5 lo_sp lo_eol1 lo_eol2].
       repeat split; try exact ex_sp_length; try lia; try (vm_compute; reflexivity); try discriminate; try ex_ws.
       * left. reflexivity.
       * right. right. left. reflexivity.
